@@ -24,7 +24,7 @@ use ironcalc_base::expressions::token::Error;
 use ironcalc_base::expressions::types::Area;
 use ironcalc_base::types::{ArrayKind, Cell, FormulaValue};
 use ironcalc_base::{Model, UserModel};
-use std::collections::BTreeMap;
+use std::collections::{BTreeMap, HashSet};
 
 const LAST_ROW: i32 = 1_048_576;
 const LAST_COLUMN: i32 = 16_384;
@@ -68,6 +68,23 @@ fn cell_at<'a>(m: &'a Model<'_>, r: i32, c: i32) -> Option<&'a Cell> {
 
 /// the spill invariant, checked on the real sheet
 fn check_invariant(m: &Model, fails: &mut Vec<(String, String)>) {
+    check_invariant_with(m, fails, &HashSet::new())
+}
+
+/// the signature of an invariant / exactness failure: when one of the cells involved was covered by
+/// the range of an accepted fixed-range (CSE) array entry of the history, the failure belongs to the
+/// mechanism of finding F31b (the CSE writer overwrites its declared range whatever it holds)
+fn sig_for(base: &str, cover: &HashSet<(i32, i32)>, cells: &[(i32, i32)]) -> String {
+    if cells.iter().any(|c| cover.contains(c)) {
+        format!("{base}:cse-array-overlap")
+    } else {
+        base.to_string()
+    }
+}
+
+/// `cse_children`: the positions covered by the range of some accepted fixed-range (CSE) array entry
+/// of the history
+fn check_invariant_with(m: &Model, fails: &mut Vec<(String, String)>, cse_children: &HashSet<(i32, i32)>) {
     for ((r, c), cell) in sorted_cells(m) {
         match cell {
             Cell::SpillCell { a, .. } => match cell_at(m, a.0, a.1) {
@@ -75,15 +92,27 @@ fn check_invariant(m: &Model, fails: &mut Vec<(String, String)>) {
                     let inside = r >= a.0 && r < a.0 + h && c >= a.1 && c < a.1 + w && (r, c) != a;
                     if !inside {
                         fails.push((
-                            "c31:inv:stale-spill-outside-block".into(),
+                            sig_for("c31:inv:stale-spill-outside-block", cse_children, &[(r, c), a]),
                             format!("{} is a spill cell of {} whose range is {w}x{h}", a1(r, c), a1(a.0, a.1)),
                         ));
                     }
                 }
-                _ => fails.push((
-                    "c31:inv:spill-without-anchor".into(),
-                    format!("{} is a spill cell of {} which is not an array formula", a1(r, c), a1(a.0, a.1)),
-                )),
+                other => {
+                    // the recorded anchor position now belongs to a fixed-range (CSE) array: the array
+                    // formula that spilled here was overwritten by that array (finding F31b)
+                    let under_cse = match other {
+                        Some(Cell::SpillCell { a: a2, .. }) => {
+                            matches!(cell_at(m, a2.0, a2.1), Some(Cell::ArrayFormula { kind: ArrayKind::Cse, .. }))
+                        }
+                        _ => false,
+                    };
+                    let sig = if under_cse {
+                        "c31:inv:spill-without-anchor:cse-array-overlap".to_string()
+                    } else {
+                        sig_for("c31:inv:spill-without-anchor", cse_children, &[(r, c), a])
+                    };
+                    fails.push((sig, format!("{} is a spill cell of {} which is not an array formula", a1(r, c), a1(a.0, a.1))));
+                }
             },
             Cell::ArrayFormula { r: (w, h), kind: ArrayKind::Dynamic, .. } => {
                 if w < 1 || h < 1 || r + h - 1 > LAST_ROW || c + w - 1 > LAST_COLUMN {
@@ -98,7 +127,7 @@ fn check_invariant(m: &Model, fails: &mut Vec<(String, String)>) {
                         match cell_at(m, i, j) {
                             Some(Cell::SpillCell { a, .. }) if *a == (r, c) => {}
                             other => fails.push((
-                                "c31:inv:block-not-filled".into(),
+                                sig_for("c31:inv:block-not-filled", cse_children, &[(r, c), (i, j)]),
                                 format!("{} (range {w}x{h}) does not own {}: {:?}", a1(r, c), a1(i, j), other.map(kind_of)),
                             )),
                         }
@@ -130,6 +159,10 @@ fn same_value(a: &Result<CellValue, String>, b: &Result<CellValue, String>) -> b
 /// exactness: every spilled block holds, element by element, what the same formula gives when it
 /// is entered as a CSE array formula of that size at the same place in a copy of the workbook
 fn check_exact(m: &Model, fails: &mut Vec<(String, String)>) -> usize {
+    check_exact_with(m, fails, &HashSet::new())
+}
+
+fn check_exact_with(m: &Model, fails: &mut Vec<(String, String)>, cover: &HashSet<(i32, i32)>) -> usize {
     let mut n = 0;
     let bytes = m.to_bytes();
     for ((r, c), cell) in sorted_cells(m) {
@@ -156,7 +189,7 @@ fn check_exact(m: &Model, fails: &mut Vec<(String, String)>) -> usize {
                     let want = copy.get_cell_value_by_index(0, i, j);
                     if !same_value(&got, &want) {
                         fails.push((
-                            "c31:not-exact".into(),
+                            sig_for("c31:not-exact", cover, &[(r, c), (i, j)]),
                             format!("{} `{text}` spilled {w}x{h}: cell {} holds {:?}, element ({},{}) of the result is {:?}",
                                 a1(r, c), a1(i, j), got, i - r, j - c, want),
                         ));
@@ -257,6 +290,7 @@ fn eval_hist(req: &str) -> ImplOut {
     let mut tags: Vec<String> = vec![];
     let mut n_spilled = 0;
     let mut n_err = 0;
+    let mut cse_children: HashSet<(i32, i32)> = HashSet::new();
     for op in ops.split(';') {
         let p: Vec<&str> = op.split('.').collect();
         match p[0] {
@@ -272,11 +306,25 @@ fn eval_hist(req: &str) -> ImplOut {
                     tags.push("kind:dynamic-formula-not-recognised".into());
                 }
             }
+            "A" => {
+                let n = |i: usize| -> i32 { p.get(i).and_then(|x| x.parse().ok()).unwrap_or(1) };
+                let text = p.get(5).and_then(|x| unhex(x)).unwrap_or_default();
+                if m.set_user_array_formula(0, n(1), n(2), n(3), n(4), &text).is_err() {
+                    tags.push("edit:refused".into());
+                } else {
+                    for r in n(1)..n(1) + n(4) {
+                        for c in n(2)..n(2) + n(3) {
+                            cse_children.insert((r, c));
+                        }
+                    }
+                }
+                tags.push("op:cse-array".into());
+            }
             "E" => {
                 m.evaluate();
                 dumps.push(dump(&m));
-                check_invariant(&m, &mut fails);
-                check_exact(&m, &mut fails);
+                check_invariant_with(&m, &mut fails, &cse_children);
+                check_exact_with(&m, &mut fails, &cse_children);
                 check_stable(&m, &mut fails);
                 // #SPILL! exactly when the natural block is blocked or leaves the grid
                 if p.get(1).map(|x| *x != "-").unwrap_or(false) {
@@ -295,7 +343,7 @@ fn eval_hist(req: &str) -> ImplOut {
                             None => continue,
                         };
                         let stored = match &cell {
-                            Cell::ArrayFormula { r: (w, h), .. } => (*h, *w),
+                            Cell::ArrayFormula { r: (w, h), kind: ArrayKind::Dynamic, .. } => (*h, *w),
                             _ => continue,
                         };
                         let out_of_grid = r + h - 1 > LAST_ROW || c + w - 1 > LAST_COLUMN;
@@ -531,6 +579,57 @@ fn gen_history(rng: &mut Rng, user: bool) -> String {
     ops.join(";")
 }
 
+/// histories in which fixed-range (CSE) array formulas and dynamic ones are entered over each other,
+/// with and without an evaluation in between.  Every formula reads column A only, so evaluation
+/// order is natural order (dynamic anchors in phase 1, CSE anchors in phase 2).
+fn gen_history_cse(rng: &mut Rng) -> String {
+    let mut ops: Vec<String> = vec![];
+    let mut inputs = [0i32; 7];
+    let mut anchors: BTreeMap<(i32, i32), Tpl> = BTreeMap::new();
+    for k in 1..=6 {
+        inputs[k] = rng.range(1, 3) as i32;
+        ops.push(format!("P.{k}.1.{}", hex(&inputs[k].to_string())));
+    }
+    let spec = |anchors: &BTreeMap<(i32, i32), Tpl>, inputs: &[i32; 7]| -> String {
+        let v: Vec<String> = anchors.iter().map(|(k, t)| format!("{},{},{}", k.0, k.1, shape_spec(t, inputs))).collect();
+        if v.is_empty() { "-".to_string() } else { v.join("_") }
+    };
+    let n = rng.range(8, 24);
+    for _ in 0..n {
+        let at = (rng.range(1, 5) as i32, rng.range(2, 6) as i32);
+        match rng.below(10) {
+            0 | 1 | 2 => {
+                let t = match rng.below(3) {
+                    0 => Tpl::Seq(rng.range(1, 3) as i32, rng.range(1, 3) as i32),
+                    1 => Tpl::SeqOfInput(rng.range(1, 6) as i32, rng.chance(1, 2)),
+                    _ => {
+                        let a = rng.range(1, 4) as i32;
+                        Tpl::RangeTimes(a, a + rng.range(0, 2) as i32)
+                    }
+                };
+                ops.push(format!("D.{}.{}.{}", at.0, at.1, hex(&tpl_text(&t))));
+                anchors.insert(at, t);
+            }
+            3 | 4 | 5 => {
+                let (w, h) = (rng.range(1, 3), rng.range(1, 3));
+                let text = if rng.chance(1, 2) { format!("=SEQUENCE({h},{w})") } else { "=A1:A2*2".to_string() };
+                ops.push(format!("A.{}.{}.{w}.{h}.{}", at.0, at.1, hex(&text)));
+            }
+            6 => {
+                ops.push(format!("P.{}.{}.{}", at.0, at.1, hex(&rng.range(10, 99).to_string())));
+                anchors.remove(&at);
+            }
+            7 => {
+                ops.push(format!("X.{}.{}", at.0, at.1));
+                anchors.remove(&at);
+            }
+            _ => ops.push(format!("E.{}", spec(&anchors, &inputs))),
+        }
+    }
+    ops.push(format!("E.{}", spec(&anchors, &inputs)));
+    ops.join(";")
+}
+
 fn gen_hist(ctx: &Ctx, sink: &mut dyn FnMut(String)) {
     // corpus: grow / shrink / block / unblock / spill feeding a spill / out of grid
     let h = |s: &str| hex(s);
@@ -545,10 +644,18 @@ fn gen_hist(ctx: &Ctx, sink: &mut dyn FnMut(String)) {
         h("2"), h("=SEQUENCE(1,A1)"), h("=SEQUENCE(3,1)"), h("1")
     ));
     let mut rng = Rng::new(ctx.seed ^ 0xC31);
+    // F31b: a dynamic formula typed into a not yet evaluated CSE range, and a CSE range entered over a
+    // dynamic anchor that has spilled
+    sink(format!("c31 hist A.1.1.2.2.{};D.2.2.{};E.2,2,2,1", h("=SEQUENCE(2,2)"), h("=SEQUENCE(2,1)")));
+    sink(format!("c31 hist D.2.2.{};E.2,2,2,1;A.1.1.2.2.{};E.2,2,2,1", h("=SEQUENCE(2,1)"), h("=SEQUENCE(2,2)")));
     let count = if ctx.tier == Tier::Quick { 300 } else { 20_000 };
     for _ in 0..count {
         let mut r = rng.fork();
         sink(format!("c31 hist {}", gen_history(&mut r, false)));
+    }
+    for _ in 0..count / 3 {
+        let mut r = rng.fork();
+        sink(format!("c31 hist {}", gen_history_cse(&mut r)));
     }
 }
 
